@@ -313,11 +313,18 @@ def witness_search(tier, seed):
             for k in keys:
                 ops.append(("delkey", k, None, None, None))
         depth = 2 if tier == "quick" else 3
-        for hist in itertools.product(ops, repeat=depth):
+        # start states: the blank object, and for every aliased property the object that holds only the legacy spelling
+        preludes = [()]
+        for attr, name, alias in aliased:
+            if alias and kind != "SMChart":
+                preludes.append((("delkey", name, None, None, None), ("setkey", alias, None, None, "legacy")))
+        cases = itertools.chain((((), h) for h in itertools.product(ops, repeat=depth)),
+                                ((pre, h) for pre in preludes[1:] for h in itertools.product(ops, repeat=2)))
+        for prelude, hist in cases:
             obj = mk(kind)
             model = dict(obj.items())   # python dicts keep insertion order
             trace = []
-            for op in hist:
+            for op in tuple(prelude) + tuple(hist):
                 trace.append(op[:2] + (op[4],))
                 bad = _step(obj, model, op, kind, six, decls)
                 if not bad:
